@@ -253,6 +253,23 @@ def run_closure(desc, M):
             M.check(r == (t in want), "entails agrees with derivability", key=k2, detail=f"input {tag}: {sorted(a)} _|_ {sorted(b)} | {sorted(t[1])}")
         cl2 = Independencies(*[[sorted(tuple(c[0])[0]), sorted(tuple(c[0])[-1]), sorted(c[1])] for c in want])
         M.check(bool(ind.is_equivalent(cl2)), "a set is equivalent to its closure", key=known, detail=f"input {tag}")
+        # history on ONE object: query, add an assertion, query again (no stale answers)
+        allc2 = _ORACLE_CACHE[(tuple(V), "correct")][0]
+        extra_in = [c for c in allc2 if c not in got][: 1]
+        if extra_in and known is None and not extra and not missing:
+            t = extra_in[0]
+            a, b = tuple(t[0])
+            ind.add_assertions([sorted(a), sorted(b), sorted(t[1])])
+            want2, nq3 = closure_oracle(V, inputs + [t])
+            M.n_obl += nq3
+            M.n_solver += nq3
+            got2 = {canon(x.event1, x.event2, x.event3) for x in ind.closure().get_assertions()}
+            want2_def, _ = closure_oracle(V, inputs + [t], "pgmpy-known-defect")
+            k3 = desc["family"] + ":known-contraction-side-condition" if (got2 != want2 and got2 == want2_def) else None
+            M.check(got2 == want2, "closure after add_assertions reflects the new assertion (no stale result)", key=k3,
+                    detail=f"input {tag} + {sorted(a)} _|_ {sorted(b)} | {sorted(t[1])}")
+            M.check(bool(ind.entails(Independencies([sorted(a), sorted(b), sorted(t[1])]))), "entails sees an assertion added after an earlier query",
+                    detail=f"input {tag}")
         # IndependenceAssertion equality/hash are symmetric in the two events
         for c in inputs[:1]:
             a, b = tuple(c[0])
@@ -394,6 +411,31 @@ def run_jpd(desc, M):
             check_ci(M, J, card, a, b, cond, bool(got), f"check_independence({VARS[a]},{VARS[b]}|{[VARS[c] for c in cond]})")
             if M.symbolic:
                 M.samples.append(f"{desc['struct']}: {VARS[a]} _|_ {VARS[b]} | {[VARS[c] for c in cond]} -> {got}")
+        # context form: event3 = [(variable, state)] conditions on a VALUE; afterwards the object must answer as before
+        cz = card[2]
+        for zs in range(cz):
+            got_ctx = jpd.check_independence(["X"], ["Y"], [("Z", zs)])
+            res = []
+            for sx in range(card[0]):
+                for sy in range(card[1]):
+                    pxyz = J[(sx, sy, zs)]
+                    pz = marg(J, card, None, {2: zs})
+                    pxz = marg(J, card, None, {0: sx, 2: zs})
+                    pyz = marg(J, card, None, {1: sy, 2: zs})
+                    res.append((pxyz * pz - pxz * pyz, pxz * pyz))
+            if got_ctx:
+                for r, ref in res:
+                    rr = r / (marg(J, card, None, {2: zs}) * marg(J, card, None, {2: zs}))
+                    M.le(abs(rr) if not M.symbolic else abs(core.lift(rr)), M.const("1/10000"), "context independence X _|_ Y | Z=z holds numerically")
+            else:
+                if M.symbolic:
+                    M.check(core.SymBool(z3.Or(*[core.zbool(core.lift(r) != 0) for r, _ in res])), "reported context dependence means some product differs")
+                else:
+                    M.check(any(abs(float(r)) > 0 for r, _ in res), "reported context dependence means some product differs")
+            M.check(list(jpd.variables) == vars_ and all(a is b or (not M.symbolic and a == b) for a, b in zip(jpd.values.ravel(), snap)),
+                    "a context query leaves the distribution object unchanged", detail=f"variables now {jpd.variables}")
+        got_after = jpd.check_independence(["X"], ["Y"], ["Z"], condition_random_variable=True)
+        check_ci(M, J, card, 0, 1, [2], bool(got_after), "check_independence after a context query")
     elif op == "get_independencies":
         ind = jpd.get_independencies()
         got = {frozenset((tuple(a.event1)[0], tuple(a.event2)[0])) for a in ind.get_assertions()}
